@@ -491,6 +491,18 @@ class Aw:
 
     def __init__(self, rec: Recorder, value, label=None):
         self.rec, self.value, self.label = rec, value, label
+        rec.naw = getattr(rec, "naw", 0) + 1
+        self.hashable = rec.naw % 3 != 0
+
+    # awaitables are told apart by identity only: these all compare equal (like two requests with the same
+    # fields) and every third one cannot be hashed at all
+    def __eq__(self, other):
+        return isinstance(other, Aw)
+
+    def __hash__(self):
+        if not self.hashable:
+            raise TypeError("unhashable awaitable")
+        return 7
 
     def __await__(self):
         rec = self.rec
